@@ -54,16 +54,22 @@ func Range[T Number](args ...T) ([]T, error) {
 	if end > 0 {
 		for i := start; i < end; i += step {
 			n, _ := N[T](NumToString(i))
+			if !(T(n) < end) { // a float term rounded to two decimals has reached end
+				break
+			}
 			result = append(result, T(n))
-			if i+step < i { // the next term does not fit into T: the counter would wrap around
+			if !(i+step > i) { // the next term does not fit into T (the counter would wrap around), or step is too small to change a float counter
 				break
 			}
 		}
 	} else {
 		for i := start; end < i; i -= Abs(step) {
 			n, _ := N[T](NumToString(i))
+			if !(end < T(n)) { // a float term rounded to two decimals has reached end
+				break
+			}
 			result = append(result, T(n))
-			if i-Abs(step) > i { // the next term does not fit into T: the counter would wrap around
+			if !(i-Abs(step) < i) { // the next term does not fit into T (the counter would wrap around), or step is too small to change a float counter
 				break
 			}
 		}
